@@ -8,5 +8,9 @@ CONSTANTS
   FwdModes = {TRUE, FALSE}
   BugBypass <- BypassNone
   BugRewrap = FALSE
+  Layers = {1}
+  CtxStates = {"live"}
+  BugStackCollapse = FALSE
+  BugCtxOverride = FALSE
 INVARIANTS Emit
 CHECK_DEADLOCK FALSE
